@@ -226,11 +226,19 @@ func (b *BundleAdd) UnmarshalBinary(data []byte) error {
 	n += 2
 	b.Flags = binary.BigEndian.Uint16(data[n:])
 	n += 2
-	b.Message, err = Parse(data[n:])
+	// the bundled message ends where its own header says, not at the end of the buffer
+	if len(data) < n+4 {
+		return errors.New("the []byte is too short to unmarshal the message of a BundleAdd")
+	}
+	msgLen := int(binary.BigEndian.Uint16(data[n+2:]))
+	if msgLen < 8 || n+msgLen > len(data) {
+		return errors.New("the length of the message in a BundleAdd is out of range")
+	}
+	b.Message, err = Parse(data[n : n+msgLen])
 	if err != nil {
 		return err
 	}
-	n += int(b.Message.Len())
+	n += msgLen
 	if n < len(data) {
 		n = (n + 7) / 8 * 8
 		b.Properties = make([]BundlePropertyExperimenter, 0)
